@@ -1387,6 +1387,33 @@ def _record_objects(fn):
     if not _RECORDS:
         return False
     info = _FnInfo(fn)
+    for call in [n for n in ast.walk(fn) if isinstance(n, ast.Call)]:
+        f = call.func
+        if isinstance(f, ast.Attribute) and f.attr == '_asdict' and not call.args and not call.keywords and isinstance(f.value, ast.Call) and isinstance(f.value.func, ast.Name) \
+                and f.value.func.id in _RECORDS and _RECORDS[f.value.func.id][2] == 'tuple' and f.value.func.id not in info.counts and f.value.func.id not in info.params:
+            rc = f.value
+            fields, defaults, _k = _RECORDS[rc.func.id]
+            if any(isinstance(a, ast.Starred) for a in rc.args) or any(k.arg is None or k.arg not in fields for k in rc.keywords) or len(rc.args) > len(fields):
+                continue
+            bound = dict(zip(fields, rc.args))
+            if any(k.arg in bound for k in rc.keywords):
+                continue
+            bound.update({k.arg: k.value for k in rc.keywords})
+            if any(f_ not in bound and f_ not in defaults for f_ in fields):
+                continue
+            # keyword arguments out of field order would be evaluated in a different order: only when they are pure
+            order_ok = [k.arg for k in rc.keywords] == [f_ for f_ in fields if f_ in {k.arg for k in rc.keywords}] or all(_pure(v) for v in bound.values())
+            if not order_ok:
+                continue
+            d = ast.Dict(keys=[ast.Constant(value=f_) for f_ in fields], values=[bound[f_] if f_ in bound else copy.deepcopy(defaults[f_]) for f_ in fields])
+            par = info.parents.get(id(call))
+            for fld, v in ast.iter_fields(par):
+                if v is call:
+                    setattr(par, fld, ast.copy_location(d, call))
+                elif isinstance(v, list) and any(x is call for x in v):
+                    v[[j for j, x in enumerate(v) if x is call][0]] = ast.copy_location(d, call)
+            ast.fix_missing_locations(fn)
+            return True
     for asg in [n for n in ast.walk(fn) if isinstance(n, ast.Assign)]:
         val = asg.value
         if len(asg.targets) == 1 and isinstance(asg.targets[0], (ast.Tuple, ast.List)) and isinstance(val, ast.Call) and isinstance(val.func, ast.Name) \
@@ -1434,6 +1461,7 @@ def _record_objects(fn):
         repl = {}
         unpacks = []
         slices = {}
+        asdicts = {}
         for o in occ:
             par = info.parents.get(id(o))
             if info.order.get(info.owner.get(id(o)), -1) <= info.order[id(asg)] and id(o) not in nested:
@@ -1450,6 +1478,9 @@ def _record_objects(fn):
             elif kind == 'tuple' and isinstance(par, ast.Assign) and par.value is o and len(par.targets) == 1 and isinstance(par.targets[0], (ast.Tuple, ast.List)) \
                     and len(par.targets[0].elts) == len(fields) and not any(isinstance(e, ast.Starred) for e in par.targets[0].elts):
                 unpacks.append(o)
+            elif kind == 'tuple' and isinstance(par, ast.Attribute) and par.value is o and par.attr == '_asdict' and isinstance(info.parents.get(id(par)), ast.Call) \
+                    and info.parents[id(par)].func is par and not info.parents[id(par)].args and not info.parents[id(par)].keywords:
+                asdicts[id(info.parents[id(par)])] = True
             elif kind == 'tuple' and isinstance(par, ast.Subscript) and par.value is o and isinstance(par.ctx, ast.Load) and isinstance(par.slice, ast.Slice) \
                     and all(b is None or (_const_key(b) is not None and _const_key(b)[0] == 'int') for b in (par.slice.lower, par.slice.upper, par.slice.step)):
                 sl = slice(*[None if b is None else _const_key(b)[1] for b in (par.slice.lower, par.slice.upper, par.slice.step)])
@@ -1475,6 +1506,11 @@ def _record_objects(fn):
             def visit_Attribute(self, n):
                 if id(n) in repl:
                     return ast.copy_location(ast.Name(id=local(repl[id(n)]), ctx=n.ctx), n)
+                return self.generic_visit(n)
+
+            def visit_Call(self, n):
+                if id(n) in asdicts:
+                    return ast.copy_location(ast.Dict(keys=[ast.Constant(value=f) for f in fields], values=[ast.Name(id=local(f), ctx=ast.Load()) for f in fields]), n)
                 return self.generic_visit(n)
 
             def visit_Subscript(self, n):
@@ -2291,12 +2327,46 @@ def _membership_loops(fn):
             if not (isinstance(blk, list) and blk and isinstance(blk[0], ast.stmt)):
                 continue
             for i, st in enumerate(blk):
-                if isinstance(st, (ast.For, ast.While)) and len(st.body) >= 2 and isinstance(st.body[0], ast.If) and not st.body[0].orelse \
-                        and len(st.body[0].body) == 1 and isinstance(st.body[0].body[0], ast.Continue) and _test_pure(st.body[0].test):
-                    g = st.body[0]
-                    st.body = [ast.copy_location(ast.If(test=_neg(g.test), body=st.body[1:], orelse=[]), g)]
+                if isinstance(st, ast.For) and isinstance(st.iter, ast.Subscript) and isinstance(st.iter.value, ast.Name) and isinstance(st.iter.slice, ast.Slice) \
+                        and st.iter.slice.lower is None and st.iter.slice.upper is None and _const_key(st.iter.slice.step) == ('int', -1) \
+                        and st.iter.value.id not in _store_bases(st.body):
+                    # for v in X[::-1] (a reversed copy) -> for v in reversed(X): X is not changed by the loop
+                    st.iter = ast.copy_location(ast.Call(func=ast.Name(id='reversed', ctx=ast.Load()), args=[st.iter.value], keywords=[]), st.iter)
                     ast.fix_missing_locations(fn)
                     return True
+                if isinstance(st, (ast.For, ast.While)):
+                    # blocks in tail position of the loop body: falling off their end ends the iteration
+                    tails, todo = [], [st.body]
+                    while todo:
+                        b_ = todo.pop()
+                        tails.append(b_)
+                        if b_ and isinstance(b_[-1], ast.If):
+                            todo.append(b_[-1].body)
+                            if b_[-1].orelse:
+                                todo.append(b_[-1].orelse)
+                    hit = False
+                    for b_ in tails:
+                        if b_ and isinstance(b_[-1], ast.Continue):
+                            b_[-1:] = [] if len(b_) > 1 else [ast.copy_location(ast.Pass(), b_[-1])]
+                            hit = True
+                            break
+                        for k, g in enumerate(b_):
+                            if not (isinstance(g, ast.If) and not g.orelse and g.body and isinstance(g.body[-1], ast.Continue)):
+                                continue
+                            rest = b_[k + 1:]
+                            if not rest:
+                                continue        # handled through the tail blocks
+                            if len(g.body) == 1:
+                                b_[k:] = [ast.copy_location(ast.If(test=_neg(g.test), body=rest, orelse=[]), g)]
+                            else:
+                                b_[k:] = [ast.copy_location(ast.If(test=g.test, body=g.body[:-1], orelse=rest), g)]
+                            hit = True
+                            break
+                        if hit:
+                            break
+                    if hit:
+                        ast.fix_missing_locations(fn)
+                        return True
                 if not (isinstance(st, ast.For) and isinstance(st.target, ast.Name) and len(st.body) == 1 and isinstance(st.body[0], ast.If) and not st.body[0].orelse):
                     continue
                 x = st.target.id
@@ -2507,6 +2577,127 @@ def _fuse_producer_consumer(fn):
     return False
 
 
+def _eafp_unpack(fn):
+    """try: (a, b) = S  except ValueError: H   [rest]      ->   if len(S) != 2: H  else: a = S[0] ; b = S[1]
+    S is this function's *args tuple or a parameter annotated tuple / list, not re-bound before the statement (its length is then all the unpacking can complain about)"""
+    sized = set()
+    if fn.args.vararg:
+        sized.add(fn.args.vararg.arg)
+    for a in fn.args.posonlyargs + fn.args.args + fn.args.kwonlyargs:
+        if a.annotation is not None and ast.unparse(a.annotation).strip("'\"").split('[')[0] in ('tuple', 'list', 'Tuple', 'List'):
+            sized.add(a.arg)
+    if not sized:
+        return False
+    info = _FnInfo(fn)
+    for n in ast.walk(fn):
+        for fld in ('body', 'orelse', 'finalbody'):
+            blk = getattr(n, fld, None)
+            if not (isinstance(blk, list) and blk and isinstance(blk[0], ast.stmt)):
+                continue
+            for i, st in enumerate(blk):
+                if not (isinstance(st, ast.Try) and len(st.body) == 1 and len(st.handlers) == 1 and not st.finalbody and isinstance(st.body[0], ast.Assign)):
+                    continue
+                asg, h = st.body[0], st.handlers[0]
+                if not (len(asg.targets) == 1 and isinstance(asg.targets[0], (ast.Tuple, ast.List)) and isinstance(asg.value, ast.Name) and asg.value.id in sized
+                        and all(isinstance(e, ast.Name) for e in asg.targets[0].elts) and info.counts.get(asg.value.id, 0) == 0):
+                    continue
+                if not (isinstance(h.type, ast.Name) and h.type.id == 'ValueError' and h.name is None):
+                    continue
+                if any(isinstance(x, ast.Raise) and x.exc is None for s_ in h.body for x in ast.walk(s_)):
+                    continue
+                S, k = asg.value.id, len(asg.targets[0].elts)
+                binds = [ast.Assign(targets=[ast.Name(id=e.id, ctx=ast.Store())], value=ast.Subscript(value=ast.Name(id=S, ctx=ast.Load()), slice=ast.Constant(value=j), ctx=ast.Load()))
+                         for j, e in enumerate(asg.targets[0].elts)]
+                new = ast.If(test=ast.Compare(left=ast.Call(func=ast.Name(id='len', ctx=ast.Load()), args=[ast.Name(id=S, ctx=ast.Load())], keywords=[]), ops=[ast.NotEq()], comparators=[ast.Constant(value=k)]),
+                             body=h.body, orelse=binds + list(st.orelse))
+                ast.copy_location(new, st)
+                # a handler that always leaves: the bindings and the rest follow the `if`
+                if isinstance(h.body[-1], (ast.Return, ast.Raise, ast.Continue, ast.Break)):
+                    new.orelse = []
+                    blk[i:i + 1] = [new] + binds + list(st.orelse)
+                else:
+                    blk[i] = new
+                ast.fix_missing_locations(fn)
+                return True
+    return False
+
+
+def _generated_list_results(fn):
+    """Y = list(X) / Y = X  for a generated accumulator X (__out*) that is otherwise only appended to / extended, Y bound once and not seen before:  X is renamed Y"""
+    info = _FnInfo(fn)
+    for asg in [n for n in ast.walk(fn) if isinstance(n, ast.Assign)]:
+        if len(asg.targets) != 1 or not isinstance(asg.targets[0], ast.Name):
+            continue
+        y, v = asg.targets[0].id, asg.value
+        if isinstance(v, ast.Call) and isinstance(v.func, ast.Name) and v.func.id == 'list' and len(v.args) == 1 and not v.keywords and isinstance(v.args[0], ast.Name):
+            src = v.args[0]
+        elif isinstance(v, ast.Name):
+            src = v
+        else:
+            continue
+        x = src.id
+        if not x.startswith('__out') or info.counts.get(x, 0) != 1 or not info.single(y) or info.loops.get(id(asg), True):
+            continue
+        at = info.order.get(id(asg))
+        if at is None:
+            continue
+        ok = True
+        for ld in info.loads(x):
+            if ld is src:
+                continue
+            par = info.parents.get(id(ld))
+            gp = info.parents.get(id(par)) if par is not None else None
+            if not (isinstance(par, ast.Attribute) and par.value is ld and par.attr in ('append', 'extend') and isinstance(gp, ast.Call) and gp.func is par
+                    and info.order.get(info.owner.get(id(ld)), 10 ** 9) < at):
+                ok = False
+        if not ok:
+            continue
+        if any(isinstance(n, ast.Name) and n.id == y and n is not asg.targets[0] and info.order.get(info.owner.get(id(n)), -1) <= at for n in ast.walk(fn)):
+            continue
+        if any(isinstance(n, (ast.FunctionDef, ast.Lambda, ast.ClassDef)) and n is not fn for n in ast.walk(fn)):
+            continue
+        for n in ast.walk(fn):
+            if isinstance(n, ast.Name) and n.id == x:
+                n.id = y
+        _remove_stmt(fn, asg)
+        ast.fix_missing_locations(fn)
+        return True
+    return False
+
+
+def _adjacent_copies(fn):
+    """<statement binding t> ; x = t      ->   <statement binding x>       (adjacent; t bound once and read once, x bound once: also inside loops)"""
+    info = _FnInfo(fn)
+    for n in ast.walk(fn):
+        for fld in ('body', 'orelse', 'finalbody'):
+            blk = getattr(n, fld, None)
+            if not (isinstance(blk, list) and len(blk) >= 2 and isinstance(blk[0], ast.stmt)):
+                continue
+            for i in range(len(blk) - 1):
+                a, b = blk[i], blk[i + 1]
+                if not (isinstance(b, ast.Assign) and len(b.targets) == 1 and isinstance(b.targets[0], ast.Name) and isinstance(b.value, ast.Name) and isinstance(a, ast.Assign)):
+                    continue
+                x, t = b.targets[0].id, b.value.id
+                if x == t or info.counts.get(t, 0) != 1 or info.counts.get(x, 0) != 1 or t in info.params or x in info.params or len(info.loads(t)) != 1:
+                    continue
+                tstores = [y for tg in a.targets for y in ast.walk(tg) if isinstance(y, ast.Name) and isinstance(y.ctx, ast.Store) and y.id == t]
+                if len(tstores) != 1 or any(isinstance(y, ast.Name) and y.id == x for y in ast.walk(a)):
+                    continue
+                if any(isinstance(y, (ast.FunctionDef, ast.ClassDef)) and y.name in (x, t) for y in ast.walk(fn) if y is not fn) or any(isinstance(y, ast.arg) and y.arg in (x, t) and y.arg not in info.params for y in ast.walk(fn)):
+                    continue
+                if '__' in x and '__' not in t:
+                    keep, drop = t, x           # keep the programmer's name
+                else:
+                    keep, drop = x, t
+                for y in ast.walk(fn):
+                    if isinstance(y, ast.Name) and y.id == drop:
+                        y.id = keep
+                del blk[i + 1]
+                ast.fix_missing_locations(fn)
+                return True
+    return False
+
+
 def _forward_temps(fn):
     """t = E ; TARGET = t      ->  TARGET = E        (adjacent statements; t bound once and read once - by that copy; TARGET may be a global, an
     attribute or a subscript whose own sub-expressions are effect free)"""
@@ -2634,6 +2825,7 @@ def simplify_function(fn, ctx, inliner, cls):
         changed |= _modern_syntax(fn)
         changed |= _induction_vars(fn)
         changed |= _membership_loops(fn)
+        changed |= _eafp_unpack(fn)
         if _propagate_locals(fn, ctx):
             changed = True
         elif _record_dicts(fn):
@@ -2646,7 +2838,11 @@ def simplify_function(fn, ctx, inliner, cls):
             changed = True
         elif _forward_temps(fn):
             changed = True
+        elif _adjacent_copies(fn):
+            changed = True
         elif _generated_lists(fn):
+            changed = True
+        elif _generated_list_results(fn):
             changed = True
         elif _round_trip_temps(fn):
             changed = True
